@@ -64,6 +64,9 @@ import NeumannModel.Parse.Exec
                                     as `+`-joined code points.  Answer: tokens `K@lo-hi`, K = `eof` | `name:<TokenKind
                                     variant>` | `ident` | `int:<value>` | `float` | `str:<cp>.<cp>…` |
                                     `err:unterminated|integer|float|char` | `fuel`
+            strval <q> <cp>*        what the characters between two delimiters `q` (39 = ', 34 = ") mean
+                                    (Lex.litValue, the specification of Lexer::scan_string): `value <cp>*` | `none`
+            strrender <q> <cp>*     the canonical body of a literal with that value (Lex.litRender): `body <cp>*`
             clause <ctok>*          model of neumann_parser::parse on the clause-level grammar of SELECT
                                     (Clause.lean).  ctok = `select` `distinct` `all` `,` `as` `c<k>` (identifier)
                                     `e<k>` (a complete expression) `*` `from` `(` `)` `join` `inner` `left` `right`
@@ -699,6 +702,12 @@ def parseStep (_ : Unit) (line : String) : Unit × String :=
       | some md, some cs => ((), showTextRes (Text.parseText md cs)) | _, _ => bad
   | "lex" :: ws => match ws.mapM readCh with
       | some cs => ((), " ".intercalate ((Lex.lex cs).map showLexTok)) | none => bad
+  | "strval" :: q :: ws => match q.toNat?, ws.mapM (·.toNat?) with
+      | some q, some b => (match Lex.litValue q b with
+          | some v => ((), showItems "value" v) | none => ((), "none"))
+      | _, _ => bad
+  | "strrender" :: q :: ws => match q.toNat?, ws.mapM (·.toNat?) with
+      | some q, some v => ((), showItems "body" (Lex.litRender q v)) | _, _ => bad
   | "nest" :: ws => match ws.mapM readNTok with
       | some ts => ((), showNestRes ts.length (Nest.parseStmt ts)) | none => bad
   | "sel" :: ws => match ws.mapM readSTok with
